@@ -415,5 +415,4 @@ def run(ck, facts):
         ck.bad("R3", "worklist-floor", "no worklist loop (`while let Some(x) = queue.pop()`) found in hir::lifetimes (1 counted: LifetimeTransitivityIterator::next)")
     # an optional slice field must be allocated in the arena of the lifetime it borrows for, like a plain slice field (rule of C15.R6 on Dart's allocator lookups)
     import c15
-    sub = C.SubCheck(ck, "R1", "", ["R6"], key_re=r"dart::alloc_name")
-    c15.run(sub, facts)
+    c15.dart_alloc_rules(ck, "R1", facts)
